@@ -92,6 +92,55 @@ func iidx(k: interface{}) => int {
 }
 
 func init() {
+	keyKinds = append(keyKinds,
+		// single-precision floats, -0.0 and 0.0 one key
+		keyKind{name: "f32", typ: "f32", mk: "f32key(i)", idx: "r = f32idx(k)", decls: `
+func f32key(i: int) => f32 {
+	if i == 1 {
+		nz: f32 = 0
+		return -nz
+	}
+	if i == 0 {
+		return 0
+	}
+	return f32(i)/4 - 3
+}
+func f32idx(k: f32) => int {
+	if k == 0 {
+		return 0
+	}
+	return int((k + 3) * 4)
+}
+`},
+		// strings that are proper prefixes of each other, the empty string included
+		keyKind{name: "string_prefix", typ: "string", mk: "pfxkey(i)", idx: "r = pfxidx(k)", decls: `
+func pfxkey(i: int) => string {
+	s := ""
+	for j := 0; j < i%9; j++ {
+		s += "a"
+	}
+	if i/9 > 0 {
+		s += itoa(i / 9)
+	}
+	return s
+}
+func pfxidx(k: string) => int {
+	r := 0
+	for r < len(k) && k[r] == 'a' {
+		r++
+	}
+	q := 0
+	if r < len(k) {
+		q = atoi(k[r:])
+	}
+	return q*9 + r
+}
+`},
+		// a struct whose fields are of four different kinds; which field decides varies
+		keyKind{name: "struct_mixed", typ: "SM", mk: `SM{s: "p" + itoa(i%3), f: f64(i/3%4) - 1.5, b: (i/12)%2 == 1, n: u8(i / 24)}`,
+			idx:   "r = atoi(k.s[1:]) + 3*int(k.f+1.5) + 24*int(k.n)\nif k.b {\nr += 12\n}",
+			decls: "type SM :struct {\n\ts: string\n\tf: f64\n\tb: bool\n\tn: u8\n}\n"},
+	)
 	keyKinds = append(keyKinds, keyKind{name: "interface_wide", typ: "interface{}", mk: "ikey2(i)", idx: "r = iidx2(k)", needsP: true,
 		decls: `
 type PK :struct {
